@@ -27,6 +27,7 @@ def core():
         T("e", "Q", ["A01"], "Q", ["A02"], [7.5], "L"),
         T("f", "Q", ["A01"], "Q", ["A01"], [7.5], None),
         T("e", "P", ["A01"], "P", ["B01"], [70], ""),
+        T("f", "T", ["A01", "B01"], "Q", ["C01", "C02"], [50, 100], "L"),  # exactly 1 x and 2 x max_volume
         ["distribute", "e", "T", 0, "Q", ["A01", "B01"], {"volume": 30, "label": "L"}],
         ["distribute", "f", "T", 1, "P", ["A01"], {"volume": 7.5}],
     ]
@@ -53,6 +54,10 @@ def full():
             T("e", "Q", ["A01", "B01"], "Q", ["B01", "C01"], [7.5, 0], lab, wash_scheme="reuse"),
             T("f", "Q", ["A01", "A02"], "Q", ["A02", "A01"], [0, 0], lab),
             T("e", "T", "A01", "Q", {"$w2d": ["Q", 0, 3, 0, 2]}, 70, lab),
+            T("f", "T", ["B02"], "Q", ["B02"], [100], lab),
+            T("e", "T", ["A01", "C01"], "P", ["A03", "B03"], [50, 50], lab),
+            T("e", "P", ["A02"], "P2", ["A02"], [30], lab),  # another labware object that carries the same name
+            T("f", "P2", ["A01", "B01"], "P", ["A01", "B01"], [7.5, 70], lab),
             ["distribute", "f", "T", 0, "Q", ["A01", "C02", "B01"], dict(kw, volume=7.5, multi_disp=3)],
             ["distribute", "e", "T", 0, "T", ["A02"], dict(kw, volume=30)],
         ]
@@ -83,7 +88,7 @@ class Harness(cm.BaseA):
         for asplit in (True, False):
             out.append(
                 {
-                    "labware": cm.W1(),
+                    "labware": cm.W1() + [dict(cm.plate("P2", 2, 3, 10, 200, 100), label="P")],
                     "worklists": {
                         "e": {"cls": "EvoWorklist", "max_volume": 50, "auto_split": asplit},
                         "f": {"cls": "FluentWorklist", "max_volume": 50, "auto_split": asplit},
